@@ -388,7 +388,16 @@ def _apply(st, op):
         return {'note': 'noop'}
 
     def fresh(fam):
-        return open_reader(fam, fmt, path, spec)
+        # a reader without history; it read this file completely in the
+        # termination probe, so a failure here is a finding, not a harness error
+        try:
+            return open_reader(fam, fmt, path, spec)
+        except BaseException as e:
+            raise Violation('fresh-reader-raised-on-accepted-file',
+                            '%s: a fresh %s reader raised %s: %s although the same file was '
+                            'opened and read completely at the start of the run' % (
+                                desc, fam, type(e).__name__, e),
+                            sig={'format': fmt, 'family': fam, 'error': type(e).__name__})
 
     def viol(inv, detail, **sig):
         sp = sig.pop('about', None) or spec       # the file the finding is about
